@@ -60,7 +60,7 @@ pub fn big_strategy_with(t: Tier, failures: bool) -> BoxedStrategy<History> {
     let op = prop_oneof![
         6 => (any::<u64>(), gen::recv_spec()).prop_map(|(seed, recv)| Op::Round { seed, recv, read: true }),
         // duplicates of accepted shards (with other bytes) half of the time, any failing add otherwise
-        wf => (prop_oneof![Just(5u8), Just(6u8), 0u8..7], any::<u16>(), any::<u64>()).prop_map(|(variant, raw, seed)| Op::BadAdd { variant, raw, seed }),
+        wf => (prop_oneof![Just(5u8), Just(6u8), 0u8..11], any::<u16>(), any::<u64>()).prop_map(|(variant, raw, seed)| Op::BadAdd { variant, raw, seed }),
         wf => (any::<u64>(), gen::recv_spec(), any::<u16>()).prop_map(|(seed, recv, n_raw)| Op::Partial { seed, recv, n_raw }),
         1 => Just(Op::ResetSame),
         1 => cfg().prop_map(Op::Reset),
@@ -113,6 +113,7 @@ pub fn check(h: &History, st: &mut Stats) -> CheckResult {
     let mut disturbances = 0u32; // config change / recycle / failed call between completed rounds
     let mut saw = std::collections::BTreeSet::new();
     let mut rate_high = kind.is_high(cur.k, cur.r);
+    let mut past: Vec<Cfg> = Vec::new();
 
     for (opi, op) in h.ops.iter().enumerate() {
         if let Op::Recycle { kind: k2, eng: e2, cfg, same } = op {
@@ -127,6 +128,9 @@ pub fn check(h: &History, st: &mut Stats) -> CheckResult {
             };
             kind = *k2;
             eng = *e2;
+            if c2 != cur {
+                past.push(cur);
+            }
             cur = c2;
             acc.clear();
             log.clear();
@@ -134,7 +138,7 @@ pub fn check(h: &History, st: &mut Stats) -> CheckResult {
             saw.insert("recycle");
             continue;
         }
-        for call in expand(op, dec, kind, cur, &acc) {
+        for call in expand(op, dec, kind, cur, &acc, &past) {
             let out = match subject.apply(&call) {
                 Ok(o) => o,
                 Err(p) => fail!("op {opi} ({}): {call_brief} {p}", op_label(op), call_brief = brief(&call)),
@@ -153,6 +157,10 @@ pub fn check(h: &History, st: &mut Stats) -> CheckResult {
                         rate_high = nh;
                         if new != cur {
                             disturbances += 1;
+                            if past.contains(&new) {
+                                saw.insert("return-to-earlier-configuration");
+                            }
+                            past.push(cur);
                         }
                         cur = new;
                         acc.clear();
